@@ -388,8 +388,10 @@ decreasing_by
     | (apply Prod.Lex.right; simp; done)
     | (apply Prod.Lex.left; exact free_lt hl (by simpa using hd))
     | (apply Prod.Lex.right; have := (parseArgs_len hp).2; simp; omega)
-    | (apply Prod.Lex.right; have := (parseArgs_len hp).1 a (List.of_mem_zipIdx (by assumption)).2 |>.elim; simp; omega)
-    | skip
+    | (apply Prod.Lex.right
+       have hm : (a, i) ∈ args.zipIdx := by assumption
+       have := (parseArgs_len hp).1 a (List.fst_mem_of_mem_zipIdx hm)
+       simp; omega)
 
 /-! ## conditional inclusion: the `ifstates` stack of simplecpp::preprocess -/
 
